@@ -23,7 +23,8 @@ EXPECTED_PROBES = ['tls', 'plain', 'burst_over_64k', 'many_frames_one_read',
                    'frame_spans_records', 'tls_pending_nonzero',
                    'ping_in_burst', 'message_1mib', 'tls_readahead',
                    'burst_ends_with_empty_frame', 'ctl_inside_unfinished_message',
-                   'threaded', 'pong_before_next_wait']
+                   'threaded', 'pong_before_next_wait',
+                   'burst_exact_multiple_of_buffer']
 ASSUMPTIONS = ['the "real loopback TCP and TLS runs" clause of the property '
                'is runtime observation of uncontrolled executions and is not '
                'part of this verdict (DESIGN.md section 10)']
@@ -94,7 +95,7 @@ def make_case(family, i, rng, tier):
     bursts = []
     for _ in range(rng.choice([1, 2, 3])):
         kind = rng.choice(['small_frames', 'small_frames', 'one_big', 'mixed',
-                           'split_msg'])
+                           'split_msg', 'exact'])
         b = {'kind': kind}
         if kind == 'small_frames':
             b['n'] = rng.choice([1, 2, 100, 100, 1000] +
@@ -105,6 +106,12 @@ def make_case(family, i, rng, tier):
                                     32768] + ([1 << 20] if family == 'huge'
                                               else []))
             b['frags'] = rng.choice([1, 1, 3])
+        elif kind == 'exact':
+            # the whole burst is exactly N x 65536 bytes: every read of it
+            # fills the receive buffer to the last byte
+            b['mult'] = rng.choice([1, 1, 2, 3])
+            b['n'] = rng.choice([0, 3, 20])
+            b['size'] = rng.choice([0, 10, 125])
         elif kind == 'split_msg':
             # first fragment(s) and a control frame now, the rest of the
             # message only after the silence: the control frame must not wait
@@ -128,6 +135,12 @@ def make_case(family, i, rng, tier):
             'reply_glued': rng.random() < 0.3,
             'readahead': tls and rng.random() < 0.35,
             'auto_pong': True}
+    if rng.random() < 0.15:
+        # the last byte of every burst travels in a segment of its own
+        case['segment'] = 'tail1'
+    if any(b['kind'] == 'exact' for b in bursts) and rng.random() < 0.8:
+        case.update(tls=False, segment='one', short=None, reply_glued=False,
+                    readahead=False)
     return case
 
 
@@ -155,6 +168,12 @@ def build(case):
             burst_bounds.append((start2, len(enc.stream)))
             enc.probes['ctl_inside_unfinished_message'] += 1
             continue
+        if b['kind'] == 'exact':
+            for k in range(b['n']):
+                items.append({'kind': 'binary', 'hex': (bytes([k % 251]) *
+                                                        b['size']).hex(),
+                              'cuts': []})
+            b = dict(b, pings=max(1, b.get('pings', 0)), last=None)
         if b['kind'] == 'small_frames':
             for k in range(b['n']):
                 items.append({'kind': 'binary', 'hex': (bytes([k % 251]) *
@@ -193,7 +212,18 @@ def build(case):
             items.insert(rng.randrange(len(items) + 1 - nfixed),
                          {'kind': 'ping', 'hex': bytes([rng.randrange(256)
                                                         for _ in range(5)]).hex()})
+        if b['kind'] == 'exact':
+            tmp = ST.encode_items(items)
+            rest = b['mult'] * 65536 - len(tmp.stream)
+            # one filler frame in front makes the total exact
+            fill = rest - 10 if rest - 10 >= 65536 else rest - 4
+            assert 126 <= fill
+            items.insert(0, {'kind': 'binary', 'hex': (b'\xee' * fill).hex(),
+                             'cuts': []})
+            enc.probes['burst_exact_multiple_of_buffer'] += 1
         ST.encode_items(items, enc)
+        if b['kind'] == 'exact':
+            assert (len(enc.stream) - start) % 65536 == 0, len(enc.stream)
         burst_bounds.append((start, len(enc.stream)))
     # server steps: reply, then each burst's chunks at one instant
     reply = S.reply_tmpl()
@@ -206,6 +236,8 @@ def build(case):
             return [blob[i:i + rec] for i in range(0, len(blob), rec)]
         if case['segment'] == 'one':
             return [blob]
+        if case['segment'] == 'tail1':
+            return [blob[:-1], blob[-1:]] if len(blob) > 1 else [blob]
         if case['segment'] == 'mss':
             return [blob[i:i + 1460] for i in range(0, len(blob), 1460)]
         out = []
@@ -230,8 +262,11 @@ def build(case):
                 steps.append({'op': 'reply', 'tmpl': reply.hex(),
                               'accept': 'ok'})
             parts = chunks_of(blob, rng0)
+            late = 50001 if case['segment'] == 'tail1' and not case['tls'] \
+                else 0
             for j, part in enumerate(parts):
-                steps.append(S.send(part, after=gap if j == 0 else 0))
+                steps.append(S.send(part, after=gap if j == 0 else (
+                    late if j == len(parts) - 1 else 0)))
         first = False
     if first:
         steps.append({'op': 'reply', 'tmpl': reply.hex(), 'accept': 'ok'})
